@@ -44,6 +44,19 @@ func init() {
 }
 
 func runChains(c *kit.Ctx) {
+	// assumption check: the builder half of this property is a transcription of miner/worker.go
+	if c.Mine(0, "transcription") {
+		c.Begin("transcription", nil)
+		if d, err := build.WorkerSourceDigest(); err != nil {
+			c.EndInconclusive("cannot read miner/worker.go of the tree under test: " + err.Error())
+		} else if d != build.WorkerSourceDigestTranscribed {
+			c.Note("miner/worker.go of the tree under test (sha256 " + d + ") is not the file the harness builder transcribes (" + build.WorkerSourceDigestTranscribed + "): package miner cannot be linked in this sandbox, so a change in it is invisible to the workloads; the verdict of this check does not cover the changed builder")
+			c.EndInconclusive("miner/worker.go changed: builder transcription out of date")
+		} else {
+			c.Count("builder_transcription_current", 1)
+			c.End("")
+		}
+	}
 	n := c.N(32, 400)
 	if c.Mode == "race" {
 		n = c.N(8, 96)
